@@ -32,7 +32,7 @@ man = dict(
                   kind_free_text="Coq models + theorems (coq/), Go->Coq table translator (gen/), extracted OCaml model runner (ocaml/), Go differential harness and direct oracles (harness/)")],
     checks=checks,
     notes="See DESIGN.md. Fixed defects and recorded findings: known_findings.json.",
-    not_applicable=[dict(property_id=p, reason=PENDING[p]) for p in ids if p not in PROPS and p in PENDING],
+    not_applicable=[dict(property_id=p, reason=PENDING.get(p, "check under construction at this commit: not yet registered (not a claim that the technique cannot apply)")) for p in ids if p not in PROPS],
 )
 json.dump(man, open(os.path.join(ROOT, "MANIFEST.json"), "w"), indent=1)
 print("MANIFEST.json: %d checks, %d not claimed" % (len(checks), len(man["not_applicable"])))
